@@ -1,3 +1,6 @@
+#[cfg(transparencies_stretto_verif)]
+use crate::verif::locks::RwLock;
+#[cfg(not(transparencies_stretto_verif))]
 use parking_lot::RwLock;
 use std::collections::{hash_map::RandomState, HashMap};
 use std::hash::BuildHasher;
@@ -253,6 +256,7 @@ impl<S: BuildHasher + Clone + 'static> ExpirationMap<S> {
         // the observer must not hang on a lock that the code under test never releases
         let m = self
             .buckets
+            .raw()
             .try_read_for(std::time::Duration::from_secs(3))
             .expect("verif: the expiration map lock was not released within 3 s");
         let mut v: Vec<(i64, Vec<(u64, u64)>)> = m
